@@ -1,13 +1,11 @@
-// Package c01 is the correspondence harness for property C01 (placeholder).
+// Package c01 is the correspondence harness for property C01; the machinery is shared
+// with the other response-merging properties (package merge).
 package c01
 
 import (
-	"errors"
-
 	"verifh/internal/hx"
 	"verifh/internal/lineio"
+	"verifh/merge"
 )
 
-func Run(o *hx.Opts, w *lineio.Writer) error {
-	return errors.New("C01 harness not implemented")
-}
+func Run(o *hx.Opts, w *lineio.Writer) error { return merge.Run(o, w, 1) }
